@@ -1056,6 +1056,7 @@ DEAD_ERRNOS = {"ETIMEDOUT": 110, "EHOSTUNREACH": 113, "ENETDOWN": 100, "ENETUNRE
 # connection errors proper: the documented behaviour is a disconnection (generator closed, on_disconnection() runs, nothing
 # is thrown into the handler)
 DISCONNECT_ERRORS = {"ECONNRESET": ConnectionResetError, "ECONNABORTED": ConnectionAbortedError, "EPIPE": BrokenPipeError}
+EXCLUDE_D44 = True  # known finding: a TLS client sending one frame per record has its whole backlog handled in one loop iteration
 STARVE_LIMIT = 50  # errors thrown into one handler without the event loop running in between
 
 
@@ -1201,6 +1202,12 @@ def run_dead_connection_case(case: dict) -> Outcome:
     except Deadlock as exc:
         raise Violation("deadlock", f"server with a dead connection does not make progress: {str(exc)[:800]}") from exc
     detail = {"errno": case["errno"], "handler": case["handler"], "thrown": r["thrown"], "max_run": r["max_run"]}
+    # known finding D44: over TLS with one frame per record, recv() never suspends while the SSL object holds further records
+    shape_d44 = bool(case.get("tls")) and bool(case.get("per_record")) and case["errno"] in ("PARSE", "VALID")
+    if r["starved"] and shape_d44 and EXCLUDE_D44 and not case.get("no_exclude"):
+        return Outcome(nontrivial=False, classes=("excluded-D44", f"errno-{case['errno']}", "tls"), note="starved over TLS (known finding D44): not judged")
+    if shape_d44:
+        detail["shape_d44"] = True
     if r["starved"]:
         raise Violation(
             "event-loop-starved",
